@@ -10,7 +10,7 @@
 (* reports made, the final result, and the declarative reference semantics *)
 (* Faults / ValueOf.                                                       *)
 (***************************************************************************)
-EXTENDS Deserr, IOUtils
+EXTENDS Deserr
 
 CONSTANT Canonical        \* TRUE: members in source order, then missing checks (mirrors the current code; emits REPLAY)
 
